@@ -11,7 +11,8 @@ flat byte stream (`flatOps`).
 `read` = `Codec::read` = one call of `read_inner`: the `loop` runs on explicit fuel; running out of
 fuel is the distinguished result `hang`, shown unreachable (`Lemmas/CodecRun.lean`).  Every place
 where the Rust could panic in release or wraps is explicit:
-`header.msg_len as usize - 2`, `*items_left -= 1` (wraps at 0 in release — modelled as the wrap),
+`header.msg_len as usize - 2`, `*items_left -= 1` (would wrap at 0 in release — written as the wrap;
+the guard `*bytes_left == 0 || *items_left == 0` in front of it makes 0 unreachable),
 `*left -= next_len`, `buffer.split_to(next_len)` past the end, `assert!(self.state.is_none())`.
 `alloc` counts the bytes requested by `buffer.reserve(to_read)` and by the two
 `Vec::with_capacity(min(HEADER_BATCH_SIZE, items_left))`.
@@ -160,7 +161,7 @@ def stepState {B H : Type} (env : Env B H) (c : Codec H) (nl : Nat) :
     if c.buffer.length < nl then .inl (.panic .index, c, 0) else     -- `advance` past the end
     .inl (.msg (.unknown t), { buffer := c.buffer.drop nl, state := .none }, 0)
   | .blockHeaders bl il hs =>
-    if bl = 0 then .inl (.err .badMessage, { c with state := .none }, 0)
+    if bl = 0 ∨ il = 0 then .inl (.err .badMessage, { c with state := .none }, 0)   -- incorrect item count
     else
       match env.decItem c.buffer with
       | .error e => .inl (.err (.ser e), c, 0)
